@@ -2,6 +2,14 @@
 use crate::core::{Report, Viol};
 
 pub mod c01;
+pub mod c02;
+pub mod c03;
+pub mod c05;
+pub mod c06;
+pub mod c07;
+pub mod c08;
+pub mod c09;
+pub mod util;
 pub mod c16;
 
 pub type RunFn = fn(&mut Report);
@@ -9,6 +17,13 @@ pub type ReplayFn = fn(&str, &[u64]) -> Result<(), Viol>;
 
 pub static ALL: &[(&str, RunFn, ReplayFn)] = &[
     ("C01", c01::run, c01::replay),
+    ("C02", c02::run, c02::replay),
+    ("C03", c03::run, c03::replay),
+    ("C05", c05::run, c05::replay),
+    ("C06", c06::run, c06::replay),
+    ("C07", c07::run, c07::replay),
+    ("C08", c08::run, c08::replay),
+    ("C09", c09::run, c09::replay),
 ];
 
 /// `--replay <file>`: re-evaluate one saved case with plain code (no proptest) on the current tree
